@@ -2164,6 +2164,22 @@ void Interpreter::assign_string_element(const std::string &name, int64_t index,
         error_msg(DebugMsgId::CONST_STRING_ELEMENT_ASSIGN_ERROR, name.c_str());
         std::exit(1);
     }
+    // A string& (parameter or local reference) has no text of its own: its
+    // `value` is the address of the referenced Variable.  Store into that
+    // one (a const string& was rejected above; a const target is rejected
+    // here).
+    if (var->is_reference && !var->is_array && var->value != 0) {
+        var = reinterpret_cast<Variable *>(var->value);
+        if (var->type != TYPE_STRING) {
+            error_msg(DebugMsgId::NON_STRING_CHAR_ASSIGN_ERROR);
+            throw std::runtime_error("Non-string character assignment");
+        }
+        if (var->is_const) {
+            error_msg(DebugMsgId::CONST_STRING_ELEMENT_ASSIGN_ERROR,
+                      name.c_str());
+            std::exit(1);
+        }
+    }
 
     // UTF-8文字数で範囲チェック
     size_t utf8_length = utf8_utils::utf8_char_count(var->str_value);
